@@ -13,6 +13,19 @@ E2 = "explicit-state search over operation histories of the real objects against
 E3 = "bounded-exhaustive input/configuration enumeration against a reference model (depth-1 model checking)"
 
 CHECKS = {
+    "C15": dict(
+        engine="E2-hist + E3-enum",
+        category="exploration",
+        technique="bounded enumeration of configurations (schema product) and of single-edit packet histories on the real Gateway, with invariants on every reached state and a reload differential",
+        text="(1) Generated schemas: the full product of zone-00 and zone-01 options (absent / 5 classes x sensor none|thermostat|TRV|controller x 0-2 "
+        "actuators / empty zone) x zone 0B x every subset of DHW parts x appliance none|relay|OpenTherm, plus two controllers / orphans / UFH: whatever "
+        "the validator accepts must load, be reported as configured, and reload to the same. (2) Histories: the repo's logs under max_zones 1/4/12/16 and "
+        "eavesdropping off/on checked every 10th packet, and every single edit (delete, duplicate, swap, extreme-value field mutation) checked after the "
+        "edit and at the end: the reported schema validates (full and shrunk), a fresh gateway built from it has the same controllers / zones (class, "
+        "sensor, actuators) / DHW / appliance, structural invariants hold, and no device changes parent without SystemSchemaInconsistent being reported.",
+        design_ref="4/C15",
+        note="Orphans are not part of the reload comparison (the statement lists controllers, zones, DHW, appliance); generated schemas never put one device in two zones.",
+    ),
     "C16": dict(
         engine="E2-hist (differential)",
         category="exploration",
